@@ -240,6 +240,62 @@ def _u7_chunk(params, lo, hi):
     return r
 
 
+def large_graphs():
+    """larger structured undirected graphs as symmetric adjacency lists (name, adj)"""
+    out = []
+    n = 70
+    out.append(("path70", [[j for j in (i - 1, i + 1) if 0 <= j < n] for i in range(n)]))
+    out.append(("cycle70", [[(i - 1) % n, (i + 1) % n] for i in range(n)]))
+    # a chain of 12 triangles, consecutive triangles joined by a bridge
+    adj = [[] for _ in range(36)]
+    for t in range(12):
+        a, b, c = 3 * t, 3 * t + 1, 3 * t + 2
+        for u, v in ((a, b), (b, c), (a, c)):
+            adj[u].append(v)
+            adj[v].append(u)
+        if t:
+            adj[a].append(a - 1)
+            adj[a - 1].append(a)
+    out.append(("triangle_chain_36", adj))
+    # K7 with a pendant path of 5 and an isolated node: cores 6, 1, 0
+    k = 7
+    adj = [[j for j in range(k) if j != i] for i in range(k)] + [[] for _ in range(6)]
+    prev = 0
+    for x in range(k, k + 5):
+        adj[prev].append(x)
+        adj[x].append(prev)
+        prev = x
+    out.append(("K7_with_tail_and_isolated", adj))
+    g = 6
+    adj = [[] for _ in range(g * g)]
+    for i in range(g):
+        for j in range(g):
+            for a, b in ((i + 1, j), (i, j + 1)):
+                if a < g and b < g:
+                    adj[i * g + j].append(a * g + b)
+                    adj[a * g + b].append(i * g + j)
+    out.append(("grid6x6", adj))
+    return out
+
+
+def _large_chunk(params, lo, hi):
+    gs = large_graphs()
+    r = new_result()
+    for idx in range(lo, hi):
+        name, adj = gs[idx // 2]
+        n = len(adj)
+        order = tuple(range(n)) if idx % 2 == 0 else tuple(range(n - 1, -1, -1))
+        run_structural(r, n, adj, order, labelled=False)
+        for d in (0.85,):
+            errs, label, nt = judge_pagerank(list(order), adj, d)
+            r["n"] += 1
+            r["outcomes"]["pagerank:" + label] += 1
+            for kind, detail in errs:
+                r["violations"].append(viol("pagerank", kind, {"n": n, "adj": adj, "damping": d, "nodes": list(order)}, f"pagerank on {name}, damping {d}: {detail}"))
+        _louvain_rec(r, order, adj, 1.0)
+    return r
+
+
 def _asym_chunk(params, lo, hi):
     """n=4: each of the 6 pairs in {absent, listed by u, listed by v, listed by both} x all node orders"""
     n = params
@@ -543,6 +599,7 @@ def _louvain_seq_chunk(params, lo, hi):
 
 def jobs(tier, seed):
     js = []
+    js.append(Job("large_structured", len(large_graphs()) * 2, _large_chunk, None, chunk=1, describe="path and cycle on 70 nodes, a chain of 12 triangles joined by bridges, K7 with a tail and an isolated node, 6x6 grid; two node orders; all five functions"))
     js.append(Job("structural_n7_subsets_of_declared_edges", 2 ** len(U7) * 3, _u7_chunk, None, describe=f"7 nodes, every subset of {U7}, 3 node orders"))
     js.append(Job("louvain_n4_mixed_listings", 4**6 * 2 * 3, _louvain_mixed_chunk, None, describe="each pair absent / listed by one endpoint / by the other / by both, 2 node orders x resolution {0.5,1,2}"))
     js.append(Job("louvain_n3_sequences", 40**3 * 3, _louvain_seq_chunk, None, describe="arbitrary neighbour sequences (self loops, duplicates, asymmetry) x resolution {0.5,1,2}"))
